@@ -645,8 +645,9 @@ pub fn medium_vs_model(e: &mut Engine, vi: usize, with_library: bool) {
         if n.pre_existing {
             // a creation time never changes after creation - also for files the history rewrote
             if let Some(o) = e.initial.iter().find(|o| o.mvol == mvol && !o.opaque && o.path == path) {
-                if r[14..18] != o.raw[14..18] {
-                    let msg = format!("{}: creation time bytes {:02x?} differ from the formatter's {:02x?}", path, &r[14..18], &o.raw[14..18]);
+                // (offsets 12..18: name-case flags, creation time in 10 ms units, creation time, creation date)
+                if r[12..18] != o.raw[12..18] {
+                    let msg = format!("{}: name-case flags / creation time bytes (offsets 12..18) {:02x?} differ from the formatter's {:02x?}", path, &r[12..18], &o.raw[12..18]);
                     e.violate("C02", "C02.ctime", "creation time of a pre-existing file", msg);
                     return;
                 }
@@ -657,6 +658,10 @@ pub fn medium_vs_model(e: &mut Engine, vi: usize, with_library: bool) {
                 e.violate("C02", "C02.ctime", "creation time", format!("{}: creation time on the medium {:?} is not the clock value of the creating call {:?}", path, fsx::ts_from_fat(rd(16), rd(14)), n.ctime_ok.iter().map(fsx::ts_tuple).collect::<Vec<_>>()));
                 return;
             }
+        }
+        if n.mtime_missed {
+            e.violate("C02", "C02.mtime", "modification time", format!("{}: the last call that stored bytes in this file never asked the clock for the time: the modification time on the medium {:?} cannot be that of the last write", path, fsx::ts_from_fat(rd(24), rd(22))));
+            return;
         }
         if !n.mtime_ok.is_empty() && !ts_ok(&n.mtime_ok, rd(24), rd(22)) {
             e.violate("C02", "C02.mtime", "modification time", format!("{}: modification time on the medium {:?} is not the clock value of the last write {:?}", path, fsx::ts_from_fat(rd(24), rd(22)), n.mtime_ok.iter().map(fsx::ts_tuple).collect::<Vec<_>>()));
